@@ -8,6 +8,7 @@ import (
 	"fmt"
 	"math"
 	"slices"
+	"sort"
 	"testing"
 
 	"github.com/EliCDavis/polyform/modeling"
@@ -526,6 +527,17 @@ func runCase(c Case, o *vh.Obs) *vh.Failure {
 	} else if n > 0 {
 		o.Class("resolution/up-to-24")
 	}
+	if c.Rows >= 255 || c.Cols >= 255 {
+		o.Class("resolution/a-count-of-255-or-more")
+	}
+	if c.Rows >= 4095 || c.Cols >= 4095 {
+		o.Class("resolution/a-count-of-4095-or-more")
+	}
+	if big := math.Max(math.Max(c.R, c.H), math.Max(c.W, c.D)); big < 1e-4 {
+		o.Class("scale/largest-extent-below-1e-4")
+	} else if big > 1e4 {
+		o.Class("scale/largest-extent-above-1e4")
+	}
 	return judge(c, m, o)
 }
 
@@ -602,13 +614,12 @@ func judge(c Case, m modeling.Mesh, o *vh.Obs) *vh.Failure {
 			fill[a]++
 		}
 	}
-	count := func(a, b int) (n int) { // number of directed edges a->b
-		for _, h := range out[start[a]:start[a+1]] {
-			if h == b {
-				n++
-			}
-		}
-		return
+	for v := 0; v < len(s.pos); v++ { // heads sorted per tail: a cap centre has as many edges as the cylinder has sides
+		sort.Ints(out[start[v]:start[v+1]])
+	}
+	count := func(a, b int) int { // number of directed edges a->b
+		heads := out[start[a]:start[a+1]]
+		return sort.SearchInts(heads, b+1) - sort.SearchInts(heads, b)
 	}
 	for t := 0; t+2 < len(tid); t += 3 {
 		for k := 0; k < 3; k++ {
@@ -749,6 +760,17 @@ func genCount(t *rapid.T, lo, hi int, label string) int {
 	return hi - rapid.IntRange(0, hi-lo).Draw(t, label+".below-max")
 }
 
+// genBigCount: counts at and next to the powers of two where block sizes, chunked loops and
+// 8/16-bit widths change (k*2^m - 1, k*2^m, k*2^m + 1), up to max.
+func genBigCount(t *rapid.T, max int, label string) int {
+	base := rapid.SampledFrom([]int{256, 1024, 4096, 65536}).Draw(t, label+".pow2")
+	n := base*rapid.IntRange(1, 4).Draw(t, label+".k") + rapid.IntRange(-1, 1).Draw(t, label+".off")
+	for n > max {
+		n = n/2 + n%2 // 8193 -> 4097, keeps the offset
+	}
+	return n
+}
+
 func genCase(t *rapid.T) Case {
 	c := Case{Family: rapid.SampledFrom(families).Draw(t, "family")}
 	switch c.Family {
@@ -756,12 +778,23 @@ func genCase(t *rapid.T) Case {
 		c.R = genSize(t, "radius")
 		c.Rows = genCount(t, 2, 200, "rows")
 		c.Cols = genCount(t, 3, 200, "columns")
+		switch rapid.IntRange(0, 79).Draw(t, "big") {
+		case 0: // a large count along one direction, the product bounded
+			c.Rows = genBigCount(t, 4100, "bigRows")
+			c.Cols = rapid.IntRange(3, 1+100000/c.Rows).Draw(t, "colsForBigRows")
+		case 1:
+			c.Cols = genBigCount(t, 4100, "bigCols")
+			c.Rows = rapid.IntRange(2, 1+100000/c.Cols).Draw(t, "rowsForBigCols")
+		}
 		if c.Family == famHemisphere {
 			c.Uncapped = rapid.IntRange(0, 9).Draw(t, "uncapped") == 0
 		}
 	case famCylinder:
 		c.R, c.H = genSize(t, "radius"), genSize(t, "height")
 		c.Cols = genCount(t, 3, 500, "sides")
+		if rapid.IntRange(0, 39).Draw(t, "big") == 0 {
+			c.Cols = genBigCount(t, 70000, "bigSides")
+		}
 		c.UV = rapid.IntRange(0, 8).Draw(t, "uv")
 	default:
 		c.W, c.H, c.D = genSize(t, "width"), genSize(t, "height"), genSize(t, "depth")
@@ -773,6 +806,12 @@ func genCase(t *rapid.T) Case {
 		default:
 			c.UV = rapid.IntRange(0, 64).Draw(t, "uv")
 		}
+	}
+	// one case in four at another overall scale: "every radius, height, width, depth > 0" - an absolute
+	// epsilon anywhere in a constructor only shows far away from unit size
+	if rapid.IntRange(0, 3).Draw(t, "scaled") == 0 {
+		k := math.Pow(10, rapid.Float64Range(-9, 9).Draw(t, "scale.log10"))
+		c.R, c.H, c.W, c.D = c.R*k, c.H*k, c.W*k, c.D*k
 	}
 	return c
 }
